@@ -15,7 +15,7 @@ FORM_FIELDS = ["dir", "ppk", "par", "psp", "bpk", "b1", "bar", "bsp", "lg"]
 def gen(rng, tier):
     progs, cases = [], []
     hist = collections.Counter()
-    nprog = 220 if tier == "quick" else 1500
+    nprog = scaled(220 if tier == "quick" else 1500)
     tries = 0
     while len(progs) < nprog and tries < nprog * 30:
         tries += 1
@@ -104,6 +104,7 @@ def collect(rep, prop, tier, seed, exe, replay=None):
         configs = ["gcc23", "gcc23-paren", "clang17", "gcc23-san"]
     else:
         configs = ["gcc23", "gcc23-paren", "clang17", "clang20", "gcc20", "gcc17", "gcc20-emu", "clang17-emu", "gcc23-san", "clang20-san"]
+    configs = pick_configs(configs)
     if replay:
         rp = json.load(open(replay))
         pr = Prog(rp["call"], rp["program"]); pr.id = rp["case_tokens"][0]
